@@ -83,6 +83,125 @@ def build_key_types(u, key):
                  opaque=["AccessControlRules", "Privilege", "Role", "Identity", "RoleAssignment"])
 
 
+W_ = "Tracked(w): Tracked<&mut W>"
+FS = "Tracked(fs): Tracked<&mut Fs>"
+FS_RO = "Tracked(fs): Tracked<&Fs>"
+
+# ---- contracts of the key-keeper actor wrapper methods (ASSUMED: one atomic operation on the abstract state each) -------
+def rule_id_contract(e):
+    return """
+        ensures
+            r matches Ok(p) ==> p.0 == (old(w).s.rule_id(Endpoint::%(e)s) != rule_id@) && p.1@ == old(w).s.rule_id(Endpoint::%(e)s)
+                && *final(w) == old(w).did(old(w).s.with_rule_id(Endpoint::%(e)s, rule_id@), Mut::RuleId(Endpoint::%(e)s, rule_id@)),
+            r is Err ==> *final(w) == old(w).failed(final(w).s, Mut::RuleId(Endpoint::%(e)s, rule_id@)),
+""" % dict(e=e)
+
+
+def set_rules_contract(e):
+    return """
+        ensures
+            r is Ok ==> *final(w) == old(w).did(old(w).s.with_rules(Endpoint::%(e)s, computed_opt(rules)), Mut::Rules(Endpoint::%(e)s)),
+            r is Err ==> *final(w) == old(w).failed(final(w).s, Mut::Rules(Endpoint::%(e)s)),
+""" % dict(e=e)
+
+
+def get_rules_contract(e):
+    return """
+        ensures
+            r matches Ok(v) ==> v == old(w).s.rules(Endpoint::%(e)s) && *final(w) == *old(w),
+            r is Err ==> *final(w) == (W { actor_failed: true, ..*old(w) }),
+""" % dict(e=e)
+
+
+KEY_GUID_CONTRACT = """
+        ensures
+            r matches Ok(g) ==> guid_reply(g, old(w).s.key) && *final(w) == *old(w),
+            r is Err ==> *final(w) == (W { actor_failed: true, ..*old(w) }),
+"""
+UPDATE_KEY_CONTRACT = """
+        requires may_publish(*fs, *old(w), key),  // @C08.update_key.only_an_attested_or_locally_found_key_is_published
+        ensures
+            r is Ok ==> *final(w) == old(w).did(KkState { key: Some(key), ..old(w).s }, Mut::SetKey),
+            r is Err ==> *final(w) == old(w).failed(final(w).s, Mut::SetKey),
+"""
+CLEAR_KEY_CONTRACT = """
+        ensures
+            r is Ok ==> *final(w) == old(w).did(KkState { key: None, ..old(w).s }, Mut::ClearKey),
+            r is Err ==> *final(w) == old(w).failed(final(w).s, Mut::ClearKey),
+"""
+UPDATE_STATE_CONTRACT = """
+        ensures
+            r matches Ok(updated) ==> updated == (old(w).s.state != state@)
+                && *final(w) == old(w).did(KkState { state: state@, ..old(w).s }, Mut::State(state@)),
+            r is Err ==> *final(w) == old(w).failed(final(w).s, Mut::State(state@)),
+"""
+GET_STATUS_CONTRACT = """
+        ensures
+            r matches Ok(st) ==> valid_status(st) && *final(w) == (W { status: Some(st), ..*old(w) }),
+            r is Err ==> *final(w) == (W { status: None, ..*old(w) }),
+"""
+ACQUIRE_CONTRACT = """
+        requires may_acquire(*fs, *old(w)),  // @C08.acquire_key.only_when_no_readable_local_key_under_the_latched_guid
+        ensures
+            r matches Ok(k) ==> *final(w) == (W { acquired: Some(k), acquire_calls: old(w).acquire_calls + 1, ..*old(w) }),
+            r is Err ==> *final(w) == (W { acquire_calls: old(w).acquire_calls + 1, ..*old(w) }),
+"""
+ATTEST_CONTRACT = """
+        requires may_attest(*fs, *old(w), *key),  // @C08.attest_key.only_after_stored_and_read_back_identically
+        ensures
+            r is Ok ==> *final(w) == (W { attested: Some(*key), attest_calls: old(w).attest_calls + 1, ..*old(w) }),
+            r is Err ==> *final(w) == (W { attest_calls: old(w).attest_calls + 1, ..*old(w) }),
+"""
+
+
+def redirect_contract(e):
+    return """
+        ensures *final(w) == (W { redirects: old(w).redirects.push((Endpoint::%s, redirect)), ..*old(w) }),
+""" % e
+
+
+# contracts of the key-store functions: PROVED in unit `keystore` (same text), assumed here
+def keystore_contracts():
+    import importlib.util
+    spec = importlib.util.spec_from_file_location("unit_keystore_for_keykeeper", os.path.join(KEYSTORE, "unit.py"))
+    m = importlib.util.module_from_spec(spec)
+    spec.loader.exec_module(m)
+    return m
+
+
+POLL_CONTRACT = """
+        requires
+            old(fs).safe(),
+            old(w).fresh(),
+            old(w).key_dir == pbid(self.key_dir),
+        ensures
+            final(fs).safe(),  // @C08.poll.crash_invariant_holds_on_every_exit
+            final(w).key_dir == old(w).key_dir,
+            // ---- a poll whose status request fails or returns an invalid document changes nothing
+            final(w).status is None ==> final(w).s == old(w).s && final(w).muts.len() == 0,  // @C09.poll.failed_or_invalid_status_makes_no_mutating_call
+            final(w).status is None ==> final(w).redirects.len() == 0 && *final(fs) == *old(fs) && final(w).acquire_calls == 0 && final(w).attest_calls == 0 && !final(w).completed,  // @C09.poll.failed_or_invalid_status_changes_nothing_else
+            final(w).status matches Some(st) ==> valid_status(st),  // @C09.poll.only_a_valid_document_is_acted_on
+            // ---- rule ids and rules follow the document (independently of what happens to the key afterwards)
+            final(w).status matches Some(st) && !final(w).actor_failed ==> rules_step(old(w).s, final(w).s, st, Endpoint::WireServer),  // @C09.poll.wireserver_rules_follow_the_document
+            final(w).status matches Some(st) && !final(w).actor_failed ==> rules_step(old(w).s, final(w).s, st, Endpoint::Imds),  // @C09.poll.imds_rules_follow_the_document
+            final(w).status matches Some(st) && !final(w).actor_failed ==> rules_step(old(w).s, final(w).s, st, Endpoint::HostGA),  // @C09.poll.hostga_rules_follow_the_document
+            // ---- a complete iteration
+            final(w).completed ==> final(w).status is Some,
+            final(w).completed && !final(w).actor_failed ==> final(w).s.state == sc_state(final(w).status->0),  // @C09.poll.state_is_the_documents_channel_state
+            final(w).completed && !final(w).actor_failed && old(w).s.disabled_means_no_key() ==> final(w).s.disabled_means_no_key(),  // @C09.poll.disabled_means_no_key
+            final(w).completed && !final(w).actor_failed && !channel_disabled(final(w).status->0) ==> final(w).s.key is Some,  // @C09.poll.enabled_channel_has_a_key
+            final(w).completed && !final(w).actor_failed && !channel_disabled(final(w).status->0) && names_agree(*old(fs), old(w).key_dir) ==>
+                (final(w).status->0.keyGuid matches Some(g) && final(w).s.key_guid() == Some(g@)) || (final(w).attested is Some && final(w).attested == final(w).s.key),  // @C09.poll.key_is_the_one_the_host_names_or_just_latched
+            final(w).completed && !final(w).actor_failed ==>
+                final(w).redirects == (if old(w).s.state != sc_state(final(w).status->0) { redirects_of(final(w).status->0) } else { Seq::<(Endpoint, bool)>::empty() }),  // @C09.poll.redirect_policy_updated_iff_state_changed_with_mode_not_disabled
+            // ---- an iteration cut short by a failed step
+            !final(w).completed ==> final(w).redirects.len() == 0,  // @C09.poll.no_redirect_update_on_early_exit
+            !final(w).completed && !final(w).actor_failed ==> final(w).s.key == old(w).s.key && final(w).s.state == old(w).s.state,  // @C08.poll.failed_step_leaves_key_and_state_unchanged
+            // ---- host protocol
+            final(w).attest_calls <= 1 && final(w).acquire_calls <= 1,
+            final(w).attest_calls == 1 ==> final(w).acquire_calls == 1 && final(w).acquired is Some,  // @C08.poll.attest_only_follows_acquire
+"""
+
 MODE_CONTRACT = """
         ensures r@ == mode_of(*self, Endpoint::%(e)s),  // @C09.%(f)s.mode_of_the_document
 """
@@ -148,3 +267,159 @@ def build(u):
                     u.take_fn(key, "KeyStatus::" + f, pre_body=PRE, contract=RULES_CONTRACT % dict(f=f, e=e))
                 for (f, e) in (("get_wire_server_mode", "WireServer"), ("get_imds_mode", "Imds"), ("get_hostga_mode", "HostGA")):
                     u.take_fn(key, "KeyStatus::" + f, pre_body=PRE, contract=MODE_CONTRACT % dict(f=f, e=e))
+
+    build_poll(u, kk, key)
+
+
+def pick_call(sf, it, lo, hi, name, receiver_has):
+    """ordinal (among the calls of `name` inside [lo,hi), source order) of the one whose receiver text contains `receiver_has`"""
+    calls = sorted([c for c in it["calls"] if lo <= c["span"][0] and c["span"][1] <= hi and c["callee"].replace(" ", "") == name], key=lambda c: c["callee_span"][0])
+    idx = [i for i, c in enumerate(calls) if c.get("receiver") and receiver_has in sf.s(*c["receiver"])]
+    if len(idx) != 1:
+        raise Undecided("loop_poll: expected exactly one %s call on %s, found %d" % (name, receiver_has, len(idx)))
+    return idx[0]
+
+
+KK_USES = """use self::key::Key;
+use crate::common::error::{Error, KeyErrorType};
+use crate::common::result::Result;
+use crate::common::{constants, helpers, logger};
+use crate::provision;
+use crate::proxy::authorization_rules::{AuthorizationRulesForLogging, ComputedAuthorizationRules};
+use crate::shared_state::agent_status_wrapper::{AgentStatusModule, AgentStatusSharedState};
+use crate::shared_state::key_keeper_wrapper::KeyKeeperSharedState;
+use crate::shared_state::provision_wrapper::ProvisionSharedState;
+use crate::shared_state::redirector_wrapper::RedirectorSharedState;
+use crate::shared_state::telemetry_wrapper::TelemetrySharedState;
+use crate::{acl, redirector};
+use hyper::Uri;
+use crate::proxy_agent_shared::logger::LoggerLevel;
+use crate::proxy_agent_shared::misc_helpers;
+use crate::proxy_agent_shared::telemetry::event_logger;
+use std::fs;
+use std::path::Path;
+use std::time::Instant;
+use std::{path::PathBuf, time::Duration};
+use tokio_util::sync::CancellationToken;"""
+
+
+def build_poll(u, kk, key):
+    ks = keystore_contracts()
+    lg = u.src("proxy_agent/src/common/logger.rs")
+    hp = u.src("proxy_agent/src/common/helpers.rs")
+    cs = u.src("proxy_agent/src/common/constants.rs")
+    pv = u.src("proxy_agent/src/provision.rs")
+    ar = u.src("proxy_agent/src/proxy/authorization_rules.rs")
+    el = u.src("proxy_agent_shared/src/telemetry/event_logger.rs")
+    mh = u.src("proxy_agent_shared/src/misc_helpers.rs")
+    kkw = u.src("proxy_agent/src/shared_state/key_keeper_wrapper.rs")
+    asw = u.src("proxy_agent/src/shared_state/agent_status_wrapper.rs")
+    pw = u.src("proxy_agent/src/shared_state/provision_wrapper.rs")
+    rw = u.src("proxy_agent/src/shared_state/redirector_wrapper.rs")
+    tw = u.src("proxy_agent/src/shared_state/telemetry_wrapper.rs")
+    rl = u.src("proxy_agent/src/redirector/linux.rs")
+    acl = u.src("proxy_agent/src/acl.rs")
+    u.raw_file("poll_spec.rs")
+    u.raw_file("poll_deps.rs")
+    with u.mod("proxy_agent_shared"):
+        with u.mod("result", uses="use super::error::Error;"):
+            u.raw("pub type Result<T> = core::result::Result<T, Error>;")
+        with u.mod("logger"):
+            u.raw("pub type LoggerLevel = log::Level;")
+        with u.mod("misc_helpers", uses="use super::result::Result;\nuse std::path::{Path, PathBuf};"):
+            u.take_fn(mh, "try_create_folder", external_body=True)
+            u.take_fn(mh, "path_to_string", external_body=True)
+        with u.mod("telemetry"):
+            with u.mod("event_logger", uses="use log::Level;"):
+                u.take_fn(el, "write_event", external_body=True, ret="")
+    with u.mod("common"):
+        with u.mod("logger"):
+            u.take(lg, "AGENT_LOGGER_KEY", "const")
+            for f in ("write", "write_information", "write_warning", "write_error"):
+                u.take_fn(lg, f, external_body=True, ret="")
+        with u.mod("helpers"):
+            u.take_fn(hp, "write_startup_event", external_body=True)
+    with u.mod("common"):
+        pass
+    with u.mod("acl", uses="use crate::common::result::Result;\nuse std::path::PathBuf;"):
+        u.take_fn(acl, "acl_directory", external_body=True)
+    with u.mod("proxy"):
+        with u.mod("authorization_rules", uses="use crate::key_keeper::key::AuthorizationRules;\nuse std::path::Path;"):
+            u.take_ext(ar, ["AuthorizationMode", "ComputedAuthorizationItem", "ComputedAuthorizationRules", "AuthorizationRulesForLogging"], "vx_ext_rules",
+                       uses="use serde_derive::{Deserialize, Serialize};\nuse std::collections::{HashMap, HashSet};\nuse crate::vx_ext_key::*;", opaque=False, transparent=False)
+            for n in ("ComputedAuthorizationRules",):
+                u.emit("#[verifier::external_type_specification]\npub struct VxEx_vx_ext_rules_%s(crate::vx_ext_rules::%s);" % (n, n), "glue", "E1")
+            for n in ("AuthorizationMode", "ComputedAuthorizationItem", "AuthorizationRulesForLogging"):
+                u.emit("#[verifier::external_type_specification]\n#[verifier::external_body]\npub struct VxEx_vx_ext_rules_%s(crate::vx_ext_rules::%s);" % (n, n), "glue", "E1")
+            with u.impl_(ar, "AuthorizationRulesForLogging"):
+                u.take_fn(ar, "AuthorizationRulesForLogging::new", external_body=True)
+                u.take_fn(ar, "AuthorizationRulesForLogging::write_all", external_body=True, ret="")
+    with u.mod("shared_state"):
+        with u.mod("redirector_wrapper"):
+            u.placeholder_ext(rw, ["RedirectorSharedState"], "vx_ph_rw")
+        with u.mod("telemetry_wrapper"):
+            u.placeholder_ext(tw, ["TelemetrySharedState"], "vx_ph_tw")
+        with u.mod("provision_wrapper"):
+            u.placeholder_ext(pw, ["ProvisionSharedState"], "vx_ph_pw")
+        with u.mod("agent_status_wrapper", uses="use crate::common::result::Result;"):
+            u.take(asw, "AgentStatusModule", "enum")
+            u.placeholder_ext(asw, ["AgentStatusSharedState"], "vx_ph_asw")
+            with u.impl_(asw, "AgentStatusSharedState"):
+                u.take_fn(asw, "AgentStatusSharedState::set_module_status_message", external_body=True)
+        with u.mod("key_keeper_wrapper", uses="use crate::common::result::Result;\nuse crate::key_keeper::key::{AuthorizationItem, Key};\nuse crate::proxy::authorization_rules::ComputedAuthorizationItem;"):
+            u.placeholder_ext(kkw, ["KeyKeeperSharedState"], "vx_ph_kkw")
+            with u.impl_(kkw, "KeyKeeperSharedState"):
+                for (f, e) in (("update_wireserver_rule_id", "WireServer"), ("update_imds_rule_id", "Imds"), ("update_hostga_rule_id", "HostGA")):
+                    u.take_fn(kkw, "KeyKeeperSharedState::" + f, external_body=True, ghost=W_, contract=rule_id_contract(e))
+                for (f, e) in (("set_wireserver_rules", "WireServer"), ("set_imds_rules", "Imds"), ("set_hostga_rules", "HostGA")):
+                    u.take_fn(kkw, "KeyKeeperSharedState::" + f, external_body=True, ghost=W_, contract=set_rules_contract(e))
+                for (f, e) in (("get_wireserver_rules", "WireServer"), ("get_imds_rules", "Imds"), ("get_hostga_rules", "HostGA")):
+                    u.take_fn(kkw, "KeyKeeperSharedState::" + f, external_body=True, ghost=W_, contract=get_rules_contract(e))
+                u.take_fn(kkw, "KeyKeeperSharedState::get_current_key_guid", external_body=True, ghost=W_, contract=KEY_GUID_CONTRACT)
+                u.take_fn(kkw, "KeyKeeperSharedState::update_key", external_body=True, ghost=FS_RO + ", " + W_, contract=UPDATE_KEY_CONTRACT)
+                u.take_fn(kkw, "KeyKeeperSharedState::clear_key", external_body=True, ghost=W_, contract=CLEAR_KEY_CONTRACT)
+                u.take_fn(kkw, "KeyKeeperSharedState::update_current_secure_channel_state", external_body=True, ghost=W_, contract=UPDATE_STATE_CONTRACT)
+    with u.mod("provision", uses="use crate::shared_state::agent_status_wrapper::AgentStatusSharedState;\nuse crate::shared_state::key_keeper_wrapper::KeyKeeperSharedState;\nuse crate::shared_state::provision_wrapper::ProvisionSharedState;\nuse crate::shared_state::telemetry_wrapper::TelemetrySharedState;\nuse tokio_util::sync::CancellationToken;"):
+        u.take_fn(pv, "key_latched", external_body=True, ret="")
+    with u.mod("redirector", uses="use crate::shared_state::redirector_wrapper::RedirectorSharedState;"):
+        for (f, e) in (("update_wire_server_redirect_policy", "WireServer"), ("update_imds_redirect_policy", "Imds"), ("update_hostga_redirect_policy", "HostGA")):
+            u.take_fn(rl, f, external_body=True, ghost=W_, contract=redirect_contract(e))
+    with u.mod("common"):
+        with u.mod("constants"):
+            u.take(cs, "MAX_LOG_FILE_COUNT", "const")
+    with u.mod("key_keeper", uses=KK_USES):
+        with u.mod("key", uses=KEY_USES + "\nuse hyper::Uri;"):
+            u.take_fn(key, "get_status", external_body=True, ghost=W_, contract=GET_STATUS_CONTRACT)
+            u.take_fn(key, "acquire_key", external_body=True, ghost=FS_RO + ", " + W_, contract=ACQUIRE_CONTRACT)
+            u.take_fn(key, "attest_key", external_body=True, ghost=FS_RO + ", " + W_, contract=ATTEST_CONTRACT)
+        u.take(kk, "KeyKeeper", "struct")
+        with u.impl_(kk, "KeyKeeper"):
+            u.take_fn(kk, "KeyKeeper::update_status_message", pre_body="broadcast use group_fmt;", ret="")
+            u.take_fn(kk, "KeyKeeper::store_key", external_body=True, ghost=FS, contract=ks.STORE_CONTRACT % dict(f="store_key"))
+            u.take_fn(kk, "KeyKeeper::fetch_key", external_body=True, ghost=FS_RO, contract=ks.FETCH_CONTRACT % dict(f="fetch_key", enc=""))
+            u.take_fn(kk, "KeyKeeper::check_key", external_body=True, ghost=FS_RO, contract=ks.CHECK_CONTRACT % dict(f="check_key"))
+            it = kk.item("KeyKeeper::loop_poll", "fn")
+            if len(it["loops"]) != 1 or it["loops"][0]["kind"] != "loop":
+                raise Undecided("loop_poll: expected exactly one `loop`")
+            lo_, hi_ = it["loops"][0]["body"]
+            a, _ = u.find_anchor(kk, lo_, hi_, "let status = match key::get_status(", None, "loop_poll")
+            st = u.enclosing_stmt(it, a)
+            lo, hi = st[0], hi_ - 1
+            gc = [("key::get_status", None, "Tracked(w)")]
+            for f in ("update_wireserver_rule_id", "update_imds_rule_id", "update_hostga_rule_id", "set_wireserver_rules", "set_imds_rules", "set_hostga_rules",
+                      "get_current_key_guid", "update_current_secure_channel_state", "clear_key",
+                      "redirector::update_wire_server_redirect_policy", "redirector::update_imds_redirect_policy", "redirector::update_hostga_redirect_policy"):
+                gc.append((f, None, "Tracked(w)"))
+            for f in ("get_wireserver_rules", "get_imds_rules", "get_hostga_rules"):
+                gc.append((f, pick_call(kk, it, lo, hi, f, "key_keeper_shared_state"), "Tracked(w)"))
+            for f in ("Self::fetch_key", "Self::store_key", "Self::check_key"):
+                gc.append((f, None, "Tracked(fs)"))
+            gc.append(("update_key", "all", "Tracked(fs), Tracked(w)"))
+            gc.append(("key::acquire_key", None, "Tracked(fs), Tracked(w)"))
+            gc.append(("key::attest_key", None, "Tracked(fs), Tracked(w)"))
+            u.slice_fn(kk, "KeyKeeper::loop_poll", "vx_poll_once", lo, hi, "&self, " + FS + ", " + W_, ret_type="()", is_async=True,
+                       replacements=[("continue;", "all", "return;")], ghost_calls=gc,
+                       pre_body="broadcast use axiom_str_ext, axiom_string_ext, axiom_to_string_string, group_fmt, group_fs;\nproof { lits_status(); lits_consts(); }\n",
+                       tail="proof { w.completed = true; }\n",
+                       contract=POLL_CONTRACT,
+                       what="(loop body of loop_poll from the status request to the end; E5 drops: the sleep/notify select!, the provision time-up and event-thread start-up statements, get_notify and set_module_state(RUNNING) before the loop)")
